@@ -209,6 +209,8 @@ def run(job, streams=None):
     ch = kernel.Chooser(seed=seed) if streams is None else \
         kernel.Chooser(streams=streams)
     sc = scen.draw_flavour(ch)
+    if ch.draw(3, "cfg.keepsock") == 1:
+        sc["close_socket"] = False
     if ch.draw(12, "cfg.incompat") == 1:
         # a failing handshake must fail the same way on every transport
         sc["cset"]["cipherNames"] = ["aes128"]
